@@ -1,10 +1,15 @@
 package vh
 
 import (
+	"bufio"
 	"context"
 	"encoding/json"
 	"errors"
 	"fmt"
+	"math/rand"
+	"os"
+	"sort"
+	"sync"
 	"sync/atomic"
 	"testing"
 	"testing/synctest"
@@ -213,5 +218,99 @@ func init() {
 			smp = json.RawMessage(s.([]byte))
 		}
 		emit(M{"k": "summary", "n": n.Load(), "mismatches": bad.Load(), "nontrivial": nontriv.Load(), "sample": smp})
+	}
+}
+
+// ---- C05 direction B under concurrency: N goroutines ask one limiter at the same virtual instant; the multiset of
+// answers per round is validated by TLC against the property's definition (specs/LimiterConc.tla) ----
+
+func init() {
+	modes["limiter_conc"] = func(t *testing.T) {
+		var cfg rlCfg
+		envJSON("VH_CFG", &cfg)
+		trials, rounds, nG := envInt("VH_N", 50), envInt("VH_ROUNDS", 12), envInt("VH_G", 8)
+		out, err := os.Create(os.Getenv("VH_OUT"))
+		if err != nil {
+			t.Fatal(err)
+		}
+		defer out.Close()
+		w := bufio.NewWriterSize(out, 1<<20)
+		defer w.Flush()
+		enc := func(v any) { b, _ := json.Marshal(v); w.Write(b); w.WriteByte('\n') }
+		r := rand.New(rand.NewSource(int64(envInt("VH_SEED", 1))))
+		u := time.Duration(cfg.UnitNs)
+		span := cfg.I
+		if cfg.Kind != "smooth" {
+			span = cfg.P
+		}
+		nontrivial, calls := 0, 0
+		for tr := 0; tr < trials; tr++ {
+			var lines []any
+			synctest.Test(t, func(t *testing.T) {
+				rl := buildLimiter(cfg, nil)
+				t0 := time.Now()
+				for rd := 0; rd < rounds; rd++ {
+					// stay, move inside the interval / period, to its edge, or past several
+					gap := []int64{0, 1, span / 2, span - 1, span, span + 1, 3 * span}[r.Intn(7)]
+					if gap > 0 {
+						time.Sleep(time.Duration(gap) * u)
+					}
+					mw := []int64{0, 0, 1, span, 2 * span, -1}[r.Intn(6)]
+					useTry := mw == 0 && r.Intn(2) == 0
+					n := 2 + r.Intn(nG-1)
+					res := make([]int64, n)
+					startGate := make(chan struct{})
+					var wg sync.WaitGroup
+					for gi := 0; gi < n; gi++ {
+						wg.Add(1)
+						go func(gi int) {
+							defer wg.Done()
+							<-startGate
+							switch {
+							case useTry:
+								if rl.TryAcquirePermit() {
+									res[gi] = 0
+								} else {
+									res[gi] = -1
+								}
+							case mw == -1:
+								res[gi] = int64(rl.ReservePermit())
+							default:
+								d := rl.TryReservePermit(time.Duration(mw) * u)
+								res[gi] = int64(d)
+							}
+						}(gi)
+					}
+					synctest.Wait() // everybody parked at the gate
+					close(startGate)
+					wg.Wait()
+					var waits []int64
+					exact := true
+					for _, d := range res {
+						if d < 0 {
+							continue
+						}
+						if d%int64(u) != 0 {
+							exact = false
+						}
+						waits = append(waits, d/int64(u))
+					}
+					sort.Slice(waits, func(a, b int) bool { return waits[a] < waits[b] })
+					if waits == nil {
+						waits = []int64{}
+					}
+					calls += n
+					if len(waits) < n {
+						nontrivial++
+					}
+					lines = append(lines, M{"ev": "Round", "t": int64(time.Since(t0) / u), "mw": mw, "n": n, "waits": waits, "exact": exact})
+				}
+			})
+			enc(M{"ev": "Reset"})
+			for _, ln := range lines {
+				enc(ln)
+			}
+		}
+		emit(M{"k": "summary", "mode": "limiter_conc", "n": trials, "events": calls, "nontrivial": nontrivial})
 	}
 }
